@@ -3,7 +3,8 @@ import ScnVerif.Model.QVec
 /-!
 driver ops for C08 (numbers are float64 bit patterns):
 
-* `c08.qel λ ix iy iz fx fy fz`            → `Qx Qy Qz`
+* `c08.qel λ ix iy iz fx fy fz`            → `Qx Qy Qz` (float64 wavelength)
+* `c08.qel32 λ ix iy iz fx fy fz`          → `Qx Qy Qz` narrowed to float32 (float32 wavelength), printed widened
 * `c08.ub <9 u> <9 b>`                      → 9 entries of `U·B` (row major)
 * `c08.hkl qx qy qz <9 ub> <9 r>`           → `h k l`
 * `c08.qvec <sizes x> <data x> <sizes y> <data y> <sizes z> <data z>`
@@ -50,6 +51,12 @@ def handle : List String → Option String
   | "c08.qel" :: rest => do
       match ← floats? rest with
       | [l, ix, iy, iz, fx, fy, fz] => some (v3Str (qElements l ⟨ix, iy, iz⟩ ⟨fx, fy, fz⟩))
+      | _ => none
+  | "c08.qel32" :: rest => do
+      match ← floats? rest with
+      | [l, ix, iy, iz, fx, fy, fz] =>
+        let q : V3 Float32 := qElementsCast Float.toFloat32 l ⟨ix, iy, iz⟩ ⟨fx, fy, fz⟩
+        some (" ".intercalate ([q.x, q.y, q.z].map (fun x => f64Hex x.toFloat)))
       | _ => none
   | "c08.ub" :: rest => do
       let fs ← floats? rest
